@@ -974,7 +974,7 @@ def _select(cases, tier, seed):
                 rest = [c for c in g if not (c["pos"] == "root" and c["slot"] == "param")]
                 out += root + rnd.sample(rest, min(1, len(rest)))
             elif key[0] == "r":
-                out += g
+                out += [c for c in g if c["rept"] == 1 or c["pos"] in ("root", "child", "typearg", "union")]
             else:
                 out += rnd.sample(g, min(2, len(g)))
         return out
@@ -1038,14 +1038,15 @@ def _replay_and_judge(rep, d, fpath, cases, seed, pool, label="replay"):
     """R2 + R3 for a list of cases.  Returns the per-case verdicts."""
     for c in cases:
         c["seed"] = seed
-    # strided shards: expensive neighbours (deep, self-referential hints) are spread over the workers
-    nsh = max(1, (len(cases) + 23) // 24)
-    shards = [cases[i::nsh] for i in range(nsh)]
-    outs = pool.map(run_shard, shards, chunksize=1)
-    flat = [None] * len(cases)
-    for i, sh in enumerate(outs):
-        for j, r in enumerate(sh):
-            flat[i + j * nsh] = r
+    # contiguous shards (their composition is part of the history: beartype's caches live as long as the shard's
+    # process), submitted most expensive first so that the deep / self-referential ones are not the long pole
+    shards = [cases[i:i + 24] for i in range(0, len(cases), 24)]
+    order = sorted(range(len(shards)), key=lambda i: -sum(c["defect"] in ("deep", "recursive") for c in shards[i]))
+    outs_o = pool.map(run_shard, [shards[i] for i in order], chunksize=1)
+    outs = [None] * len(shards)
+    for i, o in zip(order, outs_o):
+        outs[i] = o
+    flat = [r for sh in outs for r in sh]
     results, skipped, timeouts = [], 0, 0
     for c, r in zip(cases, flat):
         if "skip" in r:
@@ -1132,7 +1133,12 @@ def _replay_and_judge(rep, d, fpath, cases, seed, pool, label="replay"):
     for k in sorted(verdicts):
         key = json.loads(k)
         case, e, row = verdicts[k][0]
-        by_site.setdefault((key["clause"], key["leak"], e.get("site", "")), []).append((key, case, e, row, k))
+        site = e.get("site", "")
+        if key["leak"] == "py:RecursionError":
+            # where the interpreter stack happens to run out depends on sharding, caches and sampling: the
+            # finding is identified by the kind of hint that exhausts the stack, not by the frame
+            site = "defect:" + key["defect"]
+        by_site.setdefault((key["clause"], key["leak"], site), []).append((key, case, e, row, k))
     for (cl, leak, site), items in sorted(by_site.items()):
         key0, case, e, row, _k = items[0]
         combos = sorted({f"{k_['entry']}/{k_['defect']}@{k_['pos']}" for k_, _c, _e, _r, _kk in items})
